@@ -57,7 +57,7 @@ fn run(input: RunInput) -> ScenFuture {
         cfg.max_frame_size = frame_limit;
         cfg.inbound_request_timeout_ms = w.flag("h_inbound_timeout", 0.5).then_some(2_000);
         let echo = Svc::echo(&w);
-        let slow = Svc::new(&w, Arc::new(|req: &Request<Bytes>| Plan { delay: Duration::from_millis(300), response: Response::new(req.body().clone()) }));
+        let slow = Svc::new(&w, Arc::new(|req: &Request<Bytes>| Plan { delay: Duration::from_millis(300), response: Response::new(req.body().clone()), hold: Duration::ZERO }));
         let router = anemo::Router::new()
             .route("/echo", echo.clone())
             .route("/slow", slow)
